@@ -24,7 +24,7 @@ SPEC = {
     "harness_timeout": {"quick": 600, "thorough": 3000},
     "theorems": ["C18_trace_ok", "C18_never_early", "C18_never_early_run", "C18_at_most_once",
                  "C18_cancel_before_pop_never_delivered", "C18_cancel_true_never_runs", "C18_cancel_result",
-                 "C18_one_pending_per_id", "C18_cancel_false_nothing_pending", "C18_reschedule_replaces",
+                 "C18_one_pending_per_id", "C18_cancel_false_nothing_pending", "C18_reschedule_replaces", "C18_after_is_at",
                  "C18_statement_holds", "C18_cancel_true_iff_prevented", "C18_old_size_bound_witness",
                  "C18_old_after_shutdown_witness", "C18_eventually_delivered", "C18_due_element_moves",
                  "C18_shutdown_wakes_pollers", "C18_skeleton_add", "C18_skeleton_shutdown", "C18_skeleton_poll",
@@ -40,14 +40,17 @@ SPEC = {
         "a timer is ready iff clock >= deadline; the clock is monotone)",
         "Go toolchain and runtime timers, compiled Lean driver"],
     "modelled": [
-        "Queue.Add/Poll/Shutdown(flags)/Size, QueueElement.Cancel, Executor workers and Shutdown (WaitGroup), TaskExecutor.ExecuteAt/Cancel "
+        "Queue.Add/Poll/Shutdown(flags)/Size, QueueElement.Cancel, Executor workers and Shutdown (WaitGroup), TaskExecutor.ExecuteAt/Cancel, "
+        "ExecuteAfter = ExecuteAt(clock at the call + delay) (C18_after_is_at) "
         "and its wrapper, callbacks that block / re-schedule their own identifier / cancel their own identifier",
         "every critical section under heapMutex is one atomic step; ExecuteAt is two steps holding the map mutex, Shutdown three",
         "the heap is container/heap's up/down over the generalheap slice, exactly (ties, size-bound victim); the theorems need only "
         "that its operations permute (proved); that Pop yields an earliest element is C12's heap property and is validated here by "
         "the differential run only",
-        "NOT modelled: Queue.Poll(waitIfEmpty=false) and direct Queue use without an Executor (Executor.ExecuteAt exercises the "
-        "same Add/Poll/Cancel/Shutdown code); ScheduledTask.Cancel() called directly on a TaskExecutor task; Executor.Shutdown "
+        "a bare Queue is the same heap and the same Poll: consumers looping over Poll are the model's workers without callbacks; "
+        "Poll(false) differs from Poll(true) only on the empty queue (returns the zero value at once) - it too waits for the "
+        "time of the element it popped; direct Queue sessions are tied by the qseq lines (model's add/cancelElem/Heap.pop) and "
+        "by okLog on qsess traces. NOT modelled: ScheduledTask.Cancel() called directly on a TaskExecutor task; Executor.Shutdown "
         "called from inside a callback; callbacks that never return; time.Time wall-clock jumps",
         "liveness is stated as absence of stuck configurations (some executor goroutine can step or waits only for the clock / "
         "the harness), not as a fairness-based eventuality"],
